@@ -95,7 +95,7 @@ func runC13(c *Ctx, r *Report, tier string) {
 		r.Check(okAll && len(origins) == 3, "FUNNEL", in_, "value handed to "+c.calleeName(s.(ssa.CallInstruction).Common()), c.ipos(s), "origins {"+strings.Join(origins, ", ")+"}", "value originates from {"+strings.Join(origins, ", ")+"}")
 	}
 	// nil exactly for an argument-less option with an empty value
-	for _, b := range ip.Blocks {
+	for _, b := range c.blocks(ip) {
 		for _, in := range b.Instrs {
 			p, ok := in.(*ssa.Phi)
 			if !ok || relType(c, p.Type()) != "*string" {
@@ -148,7 +148,7 @@ func runC13(c *Ctx, r *Report, tier string) {
 		}
 		names := map[int64]string{4: "matcher (ini-name)", 3: "field name", 2: "namespaced long name", 1: "short name"}
 		seenK := map[int64]bool{}
-		for _, b := range cl.Blocks {
+		for _, b := range c.blocks(cl) {
 			for _, in := range b.Instrs {
 				st, ok := in.(*ssa.Store)
 				if !ok {
@@ -252,7 +252,7 @@ func runC13(c *Ctx, r *Report, tier string) {
 	okFind := false
 	for _, s := range c.instrs(gf, c.isCallTo("(*Group).eachGroup")) {
 		for _, f := range closureArgs(s.(ssa.CallInstruction)) {
-			for _, b := range f.Blocks {
+			for _, b := range c.blocks(f) {
 				if iff, ok := b.Instrs[len(b.Instrs)-1].(*ssa.If); ok {
 					l := c.cond(iff.Cond)
 					if strings.HasPrefix(l.Term, "eq(") && strings.Contains(l.Term, "call:strings.ToLower(Group.ShortDescription(P0))") {
@@ -272,7 +272,7 @@ func runC13(c *Ctx, r *Report, tier string) {
 
 	// NOINI
 	okNo, hasTest := false, false
-	for _, b := range ip.Blocks {
+	for _, b := range c.blocks(ip) {
 		iff, ok := b.Instrs[len(b.Instrs)-1].(*ssa.If)
 		if !ok {
 			continue
@@ -326,7 +326,7 @@ func runC13(c *Ctx, r *Report, tier string) {
 		st, ok := in.(*ssa.Store)
 		return ok && c.isStoreTo(crbs)(in) && c.term(st.Val) == "true"
 	})
-	iloops := loopsOf(ip)
+	iloops := c.loopsDeep(ip)
 	arms := c.instrs(ip, arm)
 	okArm := len(arms) == 1
 	for _, a := range arms {
